@@ -9,19 +9,29 @@
 (***************************************************************************)
 EXTENDS Values, Universes
 
-VDecl(prog, kw, depth, mods) == [prog |-> prog, root |-> "C0", kw |-> kw, depth |-> depth, mods |-> mods]
+VDecl(prog, kw, depth, mods) == [prog |-> prog, root |-> "C0", kw |-> kw, depth |-> depth, mods |-> mods, eqtest |-> FALSE]
+\* C20: q is built like p and then one field (any, any domain value) is re-assigned; small domains everywhere
+EqDecl(prog) == [prog |-> prog, root |-> "C0", kw |-> "small", depth |-> 0, mods |-> TRUE, eqtest |-> TRUE]
 V1(fields, kw, mods) == VDecl([C0 |-> Class(DefaultOpts, fields)], kw, 1, mods)
 
 RestrictTo(vals, S) == SelectSeq(vals, LAMBDA e : e.n \in S)
 NamesOf(vals) == {vals[i].n : i \in 1..Len(vals)}
 
-FullDom(d) == ValsDom(d.prog, d.prog[d.root].fields, 1, 1)
+DescribedNames(d) == {d.prog[d.root].fields[i].name : i \in {j \in 1..Len(d.prog[d.root].fields) :
+                            d.prog[d.root].fields[j].k = "Int" /\ d.prog[d.root].fields[j].desc.kind # "none"}}
+FullDom(d) == ValsDom(d.prog, d.prog[d.root].fields, 1, IF d.kw = "small" THEN 0 ELSE 1)
 KwargsOf(d) ==
     IF d.kw = "full" THEN FullDom(d)
+    ELSE IF d.kw = "small"      \* also without the described fields: they are then computed
+    THEN FullDom(d) \cup {RestrictTo(full, NamesOf(full) \ DescribedNames(d)) : full \in FullDom(d)}
     ELSE UNION {{RestrictTo(full, S) : S \in SUBSET NamesOf(full)} : full \in FullDom(d)}
 
 ModsOf(d) ==
     IF ~d.mods THEN {[n |-> "", v |-> NoneV]}
+    ELSE IF d.eqtest
+    THEN {[n |-> "", v |-> NoneV]} \cup
+         UNION {{[n |-> d.prog[d.root].fields[i].name, v |-> x] : x \in FieldDom(d.prog, d.prog[d.root].fields[i], 0)} :
+                   i \in {j \in 1..Len(d.prog[d.root].fields) : d.prog[d.root].fields[j].k \notin {"Em", "Move"}}}
     ELSE {[n |-> "", v |-> NoneV]} \cup
          UNION {{[n |-> d.prog[d.root].fields[i].name, v |-> x] : x \in FieldDom(d.prog, d.prog[d.root].fields[i], 1)} :
                    i \in {j \in 1..Len(d.prog[d.root].fields) : d.prog[d.root].fields[j].k = "Bits"}}
@@ -79,6 +89,20 @@ U_C03V == {V1(<<IntF("a", n, sg, e), IntF("b", 2, FALSE, "little"), DataF("d", S
 U_C07V == {V1(BitFields(ws), "full", TRUE) : ws \in {<<4, 4>>, <<3, 5>>, <<1, 7>>, <<1, 6, 1>>, <<8>>}}
           \cup {V1(BitFields(ws), "full", FALSE) : ws \in {<<12, 4>>, <<4, 12>>, <<1, 22, 1>>, <<12, 12>>, <<5, 6, 5>>}}
           \cup {V1(<<U1("pre")>> \o BitFields(<<3, 5>>) \o <<U1("post")>>, "full", FALSE)}
+
+\* -------------------------------------------------------------------- C20
+U_C20 == {EqDecl([C0 |-> Class(DefaultOpts, <<U1("a"), IntF("b", 2, TRUE, "little"), DataF("d", SzField("a"))>>)]),
+          EqDecl([C0 |-> Class(DefaultOpts, <<U1("a"), MvField(U1("b"), [kind |-> "at", arg |-> SzConst(3), ref |-> "innermost-pkt"]), U1("c")>>)]),
+          EqDecl([C0 |-> Class(DefaultOpts, <<U1("a"), MvField(DataF("d", SzConst(1)), [kind |-> "shift", arg |-> SzConst(1), ref |-> "current-offset"]),
+                                              MvField(U1("c"), [kind |-> "aligned", arg |-> SzConst(4), ref |-> "begins"])>>)]),
+          EqDecl([C0 |-> Class([DefaultOpts EXCEPT !.align = 2], <<U1("a"), IntF("b", 2, FALSE, "default")>>)]),
+          EqDecl([C0 |-> Class(DefaultOpts, <<U1("a"), BitsF("h", 4), BitsF("l", 4), EmF("tail")>>)]),
+          EqDecl([C0 |-> Class(DefaultOpts, <<WithDesc(U1("n"), [kind |-> "autolen", of |-> "d"]), DataF("d", SzField("n")), U1("z")>>)]),
+          EqDecl([C0 |-> Class(DefaultOpts, <<U1("t"), RefF("s", "C1"), RepCountF("r", RefF("e", "C1"), SzField("t"), NoCond, 0),
+                                              OptF("o", U1("e"), SzField("t"))>>), C1 |-> Sub1]),
+          EqDecl([C0 |-> Class(DefaultOpts, <<U1("t"), RefSelF("v", EF("t"), <<[key |-> 0, alt |-> IntF("", 1, FALSE, "default")],
+                                                                               [key |-> 1, alt |-> RefF("", "C1")]>>, "lambda", IntV(0)),
+                                              MvField(EmF("tail"), [kind |-> "aligned", arg |-> SzConst(4), ref |-> "innermost-pkt"])>>), C1 |-> Sub1])}
 
 \* -------------------------------------------------------------------- C19
 U_C19 ==
